@@ -49,6 +49,11 @@ def _arg(case, name):
     return mag * physq.UNITS[g["unit"]]
 
 
+def _opt(case, **names):
+    """optional arguments: passed (under the code's keyword) only if the case hands them over"""
+    return {kw: _arg(case, a) for kw, a in names.items() if a in case["in"]["given"]}
+
+
 def _plain(case, name):
     return physq.frac(case["in"]["args"][name])
 
@@ -65,11 +70,13 @@ def _build(case):
     if fn == "water_density":
         from chempy.properties.water_density_tanaka_2001 import water_density
         T = _arg(case, "T")
-        return lambda: water_density(T, units=units)
+        kw = _opt(case, T0="Tz")
+        return lambda: water_density(T, units=units, **kw)
     if fn == "water_viscosity":
         from chempy.properties.water_viscosity_korson_1969 import water_viscosity
         T = _arg(case, "T")
-        return lambda: water_viscosity(T, units=units)
+        kw = _opt(case, eta20="eta20")
+        return lambda: water_viscosity(T, units=units, **kw)
     if fn == "water_diffusion":
         from chempy.properties.water_diffusivity_holz_2000 import water_self_diffusion_coefficient
         T = _arg(case, "T")
@@ -82,7 +89,8 @@ def _build(case):
         from chempy.properties.sulfuric_acid_density_myhre_1998 import sulfuric_acid_density
         T = _arg(case, "T")
         w = float(_plain(case, "w"))
-        return lambda: sulfuric_acid_density(w, T, units=units)
+        kw = _opt(case, T0="Tz")
+        return lambda: sulfuric_acid_density(w, T, units=units, **kw)
     if fn == "density_from_concentration":
         from chempy.properties.sulfuric_acid_density_myhre_1998 import density_from_concentration
         T, M = _arg(case, "T"), _arg(case, "M")
@@ -100,7 +108,8 @@ def _build(case):
     if fn.startswith("henry"):
         from chempy.henry import Henry, HenryWithUnits
         T, H0, Td = _arg(case, "T"), _arg(case, "H0"), _arg(case, "Td")
-        obj = Henry(H0, Td) if units is None else HenryWithUnits(H0, Td)
+        kw = _opt(case, T0="T0")
+        obj = Henry(H0, Td, **kw) if units is None else HenryWithUnits(H0, Td, **kw)
         if fn == "henry_H":
             return lambda: obj(T)
         if fn == "henry_c":
@@ -209,7 +218,7 @@ def _key(case, why):
 
 def _short_in(case):
     i = case["in"]
-    return dict(fn=i["fn"], mode=i["mode"], args=i["args"], sel=i["sel"],
+    return dict(fn=i["fn"], mode=i["mode"], args=i["args"], sel=i["sel"], impl=i.get("impl", True),
                 given={k: [v["mag"], v["unit"]] for k, v in i["given"].items()})
 
 
